@@ -41,6 +41,7 @@ const prelude = `(set-option :produce-models true)
 (define-fun gomod ((a Int) (b Int)) Int (- a (* b (godiv a b))))
 (define-fun str_at ((s Str) (i Int)) Int (select (s_arr s) (+ (s_off s) i)))
 (declare-fun str_eq (Str Str) Bool)
+(declare-fun str_cat (Str Str) Str)
 (declare-fun bit_and (Int Int) Int)
 (declare-fun bit_or (Int Int) Int)
 (declare-fun bit_xor (Int Int) Int)
